@@ -281,7 +281,8 @@ def finish(prop: str, tier: str, seed: int, level: str, rule: str, res: Result, 
         "violations": n_new,
         "violation_samples": jsonable(new_v[:10]),
     }
-    evdir = VERIF / "evidence"
+    # runs against a scratch copy (mutants, seeded changes) must never overwrite committed evidence
+    evdir = VERIF / ("evidence" if REPO == Path("/repo") else "evidence-scratch")
     evdir.mkdir(exist_ok=True)
     (evdir / f"{prop}.json").write_text(json.dumps(ev, indent=1, sort_keys=True))
 
